@@ -191,7 +191,7 @@ def _fwd_vc(ctx, kind, P, algo):
 
             def cancel(self):
                 self.cancelled = True
-        dup_names = {n for n, d in h.dup.items() if vals.get(d.decl().name())}
+        dup_names = {n for n, d in h.dup_vars if vals.get(d.decl().name())}
         err = None
         with patches, mock.patch("flexstack.geonet.router.Timer", FakeTimer):
             try:
